@@ -468,6 +468,12 @@ def embed(option: str, value: str) -> dict | None:
 
 
 def model_campaigns(ck: Check) -> None:
+    ck.assumptions += [
+        "path-valued options: POSIX path semantics, scratch trees without symbolic links, HOME an absolute path, `~name` never the "
+        "name of an existing account (Dcg/Model/PathNorm; the campaign and the e2e family generate names that are not accounts)",
+        "path-valued options end to end: every route runs in its own scratch tree (HOME, cwd, pyproject.toml in the parent of the cwd); "
+        "two refusals are compared as refusals (argparse's exit status 2 for a file it cannot open vs exit status 1)",
+    ]
     campaign_norm_model(ck, 250 if ck.tier == "quick" else 4000)
     ck.search_hooks.insert(0, search_paths)
 
